@@ -799,20 +799,26 @@ func checkRequiredness(c *Ctx, r *Report, clause string) {
 		}
 		for _, cl := range calls {
 			sites = append(sites, w.pos(cl.Pos()))
-			args := cl.Common().Args
-			for i, want := range []string{"", "bool", "definitions.ParamPassedIn"} {
-				if want == "" {
-					continue
+			// (wherever a refactoring put them among the operands - also inside `a && b` computed by
+			// a split-off helper: what is handed over depends on the parameter's pointer-ness and on
+			// its location; read on the syntax, where both operands of a short-circuit count)
+			idents := map[string]bool{}
+			w.inspectRegion(fi, func(n ast.Node) bool {
+				ce, ok := n.(*ast.CallExpr)
+				if !ok || ce.Lparen != cl.Pos() {
+					return true
 				}
-				a := sliceOf(args[i])
-				found := false
-				for p := range a.Params {
-					if paramTyped(p, want) {
-						found = true
+				own := w.ownerOf(fi, ce)
+				for _, arg := range ce.Args {
+					for id := range w.exprAtoms(own, arg).Idents {
+						idents[id] = true
 					}
 				}
-				if !found {
-					viol = fmt.Sprintf("%s: argument %d of appendParamRequiredValidation is not GetParamValidator's %s parameter", w.pos(cl.Pos()), i, want)
+				return true
+			})
+			for _, want := range []string{"bool", "definitions.ParamPassedIn"} {
+				if !idents["<"+want+">"] {
+					viol = fmt.Sprintf("%s: no operand of appendParamRequiredValidation derives from GetParamValidator's %s parameter", w.pos(cl.Pos()), want)
 				}
 			}
 		}
